@@ -54,6 +54,28 @@ def cap_tables(path=CAP_LEAN):
     return sens, benign, exempt, spawners, caps
 
 
+def role_tables(path=CAP_LEAN):
+    """(siteRole {(fn, call): mask}, byRole {call: [masks]}, paramModes {fn: parameter index}) of Cap.lean"""
+    src = open(path).read()
+    caps = {m.group(1): int(m.group(2)) for m in re.finditer(r'abbrev (cap\w+) : Mask := (\d+)', src)}
+
+    def block(name):
+        m = re.search(r'^def %s\b[^\n]*:=\s*\[(.*?)^\s*$' % name, src, re.S | re.M)
+        if not m:
+            raise ExtractError("Cap.lean: def %s not found" % name)
+        return re.sub(r'--[^\n]*', '', m.group(1))
+    site = {(a, b): caps[c] for a, b, c in re.findall(r'\(\("([^"]+)",\s*"([^"]+)"\),\s*(cap\w+)\)', block("siteRole"))}
+    by = {n: [caps[x.strip()] for x in g.split(",")] for n, g in re.findall(r'\("([^"]+)",\s*\[([^\]]*)\]\)', block("byRole"))}
+    pm = {a: int(b) for a, b in re.findall(r'\("([^"]+)",\s*(\d+)\)', block("paramModes"))}
+    if not site or not by:
+        raise ExtractError("Cap.lean: siteRole / byRole look wrong")
+    return site, by, pm
+
+
+def need_addrinfo(md):
+    return [4] if md == 0 else [8] if md == 1 else [4, 8]
+
+
 def _mode_relevant(path=CAP_LEAN):
     m = re.search(r'abbrev modeRelevant : Nat := ([\d |]+)', open(path).read())
     if not m:
@@ -168,6 +190,61 @@ def sandbox_options(mod):
     raise ExtractError("sandbox_options[] not found in IR")
 
 
+# ----------------------------------------------------------------------------------------- address-taken functions
+_RID = r'(?:"[^"]*"|[-\w.$]+)'
+
+
+def raw_address_scan(text, spawners):
+    """Independent of llvmir.parse: scan the IR *text*.  Every mention `@f` of a defined function `f` that is not the callee
+    of a direct call (`call <type> @f(`) and not the head of its own `define` takes its address: global initialisers
+    (JanetReg / JanetRegExt / JanetMethod arrays, JanetAbstractType vtables, handler tables), stores, call arguments,
+    constant-expression callees (bitcast).  Returns (defined names, {f: [(where, kind)]}) with kind 'global' | 'inst' |
+    'arg:<callee>'."""
+    head = re.compile(r'^define\s[^@]*@(' + _RID + r')\(')
+    defined = set(m.group(1).strip('"') for m in re.finditer(head.pattern, text, re.M))
+    callpat = re.compile(r'^\s*(?:%' + _RID + r'\s*=\s*)?(?:tail |musttail |notail )?call\s[^@]*?@(' + _RID + r')\(')
+    ref = re.compile(r'@(' + _RID + r')')
+    uses = {}
+    cur = None
+    for line in text.split("\n"):
+        if not line or line[0] in ";!":
+            continue
+        if line.startswith("define "):
+            m = head.match(line)
+            if not m:
+                raise ExtractError("address scan: define line: " + line[:120])
+            cur = m.group(1).strip('"')
+            rest = line[m.end():]
+            rest = rest[rest.rfind(")"):]            # attributes after the parameter list (personality, prefix data …)
+            for r in ref.finditer(rest):
+                if r.group(1).strip('"') in defined:
+                    uses.setdefault(r.group(1).strip('"'), []).append((cur, "inst"))
+            continue
+        if line == "}":
+            cur = None
+            continue
+        if cur is None:
+            if line.startswith(("declare ", "attributes ", "source_filename", "target ", "%", "$", "module asm")):
+                continue
+            m = re.match(r'^@(' + _RID + r')\s*=', line)
+            if not m:
+                if "@" in line:
+                    raise ExtractError("address scan: unrecognised top-level line: " + line[:120])
+                continue
+            where, kind, body = "global " + m.group(1).strip('"'), "global", line[m.end():]
+        else:
+            where, kind, body = cur, "inst", line
+            m = callpat.match(line)
+            if m and "bitcast" not in line[:m.start(1)] and " asm " not in line[:m.start(1)]:
+                kind = "arg:" + m.group(1).strip('"')
+                body = line[m.end():]
+        for r in ref.finditer(body):
+            n = r.group(1).strip('"')
+            if n in defined:
+                uses.setdefault(n, []).append((where, kind))
+    return defined, uses
+
+
 # ----------------------------------------------------------------------------------------- the model
 class Model:
     pass
@@ -243,6 +320,7 @@ def extract(build, ir_text=None):
     M = Model()
     M.mod = mod
     M.sens, M.benign, M.exempt, M.spawners, M.caps = sens, benign, exempt, spawners, caps
+    M.site_role, M.by_role, M.param_modes = role_tables()
     gep = _flag_field(mod)
     M.flag_gep = gep
     M.flag_writes = flag_writes(mod, gep)
@@ -291,6 +369,14 @@ def extract(build, ir_text=None):
             if r.group(1) in fdefs:
                 addr_uses.setdefault(r.group(1), []).append(("global " + g, False))
     M.escaping = set(n for n, us in addr_uses.items() if any(not via for _, via in us))
+    # independent scan of the IR text (Lean: gen_entries compares it with the entry list of the graph)
+    rdefined, ruses = raw_address_scan(ir_text, spawners)
+    if rdefined != set(fdefs):
+        raise ExtractError("address scan and IR parser disagree on the set of defined functions: %s" % sorted(rdefined ^ set(fdefs))[:6])
+    M.addr_uses_raw = ruses
+    M.addr_taken = sorted(n for n, us in ruses.items() if any(k[4:] not in spawners for _, k in us if k.startswith("arg:")) or
+                          any(not k.startswith("arg:") for _, k in us))
+    M.handovers = sorted(set((n, w) for n, us in ruses.items() for w, k in us if k.startswith("arg:") and k[4:] in spawners))
     # ---- mayGrow: functions that may change the flag word (whole program, direct + type-compatible indirect calls)
     bysig = {}
     for n in M.escaping:
@@ -348,7 +434,10 @@ def extract(build, ir_text=None):
             raise ExtractError("Cap.modeFunctions: function %s does not exist" % mf)
         if mf not in fn_ids:
             raise ExtractError("Cap.modeFunctions: function %s is not in the slice" % mf)
-    M.mode_tracked, M.mode_untracked = [], []
+    M.mode_tracked, M.mode_untracked, M.mask_tracked, M.assert_choices = [], [], [], []
+    for pf in M.param_modes:
+        if pf not in fdefs:
+            raise ExtractError("Cap.paramModes: function %s does not exist" % pf)
     nodes = []            # (fn id, op tuple, succ node ids)   op: ('nop',) ('assert',m) ('libc',fn,name) ('call',g) ('havoc',why) ('ret',)
     entry_of = {}
     M.node_src = []       # parallel: (function, block label, text)
@@ -357,29 +446,57 @@ def extract(build, ir_text=None):
         first = {}
         chains = []
         mode_ev = _mode_track(M, f)
+        mask_ev, var_asserts = _mask_track(M, f)
+        if mask_ev or var_asserts:
+            if name in M.mode_functions or name in M.param_modes:
+                raise ExtractError("%s: a tracked assert-mask variable next to another tracked variable kind" % name)
+            if mode_ev:                       # two variables packed in one word: assignments keep the other half
+                mode_ev = {k: (("modeUpd", HI_KEEP, v[1]) if v[0] == "modeSet" else v) for k, v in mode_ev.items()}
+                mask_ev = {k: (("modeUpd", LO_KEEP, v[1]) if v[0] == "modeSet" else v) for k, v in mask_ev.items()}
+            mode_ev = dict(mode_ev, **mask_ev)
+        if name in M.param_modes:
+            if mode_ev:
+                raise ExtractError("%s: Cap.paramModes function has a tracked local as well" % name)
+            if name in M.escaping:
+                raise ExtractError("%s: Cap.paramModes function is address-taken (its parameter is not a constant)" % name)
+            _param_fixed(f, M.param_modes[name])
         for b in f.blocks:
             evs = []
             for i in b.insts:
                 if id(i) in mode_ev:
                     evs.append((mode_ev[id(i)], i.text))
-                evs += _events(M, name, i, fn_ids, fdefs)
+                evs += _events(M, name, i, fn_ids, fdefs, b, var_asserts)
             if b.term == "ret":
                 evs.append((("ret",), "ret"))
             if not evs:
                 evs = [(("nop",), "")]
             first[b.label] = len(nodes)
-            ids = []
+            exits = []                     # exit nodes of the previous event (one, or the alternatives of a choice)
             for op, txt in evs:
-                ids.append(len(nodes))
-                nodes.append([fn_ids[name], op, []])
-                M.node_src.append((name, b.label, txt))
-            for a, c in zip(ids, ids[1:]):
-                nodes[a][2] = [c]
-            chains.append((b, ids[-1]))
-        for b, last in chains:
+                ent = len(nodes)
+                if op[0] == "choice":      # assert(c ? A : B): a fork (nop) to one assert node per constant; no condition modelled
+                    nodes.append([fn_ids[name], ("nop",), []])
+                    M.node_src.append((name, b.label, txt))
+                    alts = []
+                    for alt in op[1]:
+                        alts.append(len(nodes))
+                        nodes.append([fn_ids[name], alt, []])
+                        M.node_src.append((name, b.label, txt))
+                    nodes[ent][2] = list(alts)
+                    new_exits = alts
+                else:
+                    nodes.append([fn_ids[name], op, []])
+                    M.node_src.append((name, b.label, txt))
+                    new_exits = [ent]
+                for a in exits:
+                    nodes[a][2] = [ent]
+                exits = new_exits
+            chains.append((b, exits))
+        for b, lasts in chains:
             if b.term == "indirectbr":
                 raise ExtractError("indirectbr in slice function " + name)
-            nodes[last][2] = [] if nodes[last][1][0] == "ret" else [first[s] for s in b.succs]
+            for last in lasts:
+                nodes[last][2] = [] if nodes[last][1][0] == "ret" else [first[s] for s in b.succs]
         entry_of[name] = first[f.blocks[0].label]
     M.nodes = nodes
     M.fn_ids = fn_ids
@@ -536,7 +653,118 @@ def _mode_track_result(M, f):
     return out
 
 
-def _events(M, fname, i, fn_ids, fdefs):
+SHIFT = 16                             # the tracked assert-mask variable lives in bits 16.. of the activation's word
+LO_KEEP = (1 << SHIFT) - 1
+HI_KEEP = 0xFFFFFFFF << SHIFT
+
+
+def _param_fixed(f, idx):
+    """Parameter `idx` of f is spilled to one alloca that is never assigned again (clang -O0 shape)."""
+    b0 = f.blocks[0]
+    slot = None
+    for i in b0.insts:
+        m = re.match(r'store i32 %' + str(idx) + r', i32\* (%[\w.]+),', i.text)
+        if m:
+            slot = m.group(1)
+            break
+    if slot is None:
+        raise ExtractError("%s: parameter %d is not an i32 spilled in the entry block" % (f.name, idx))
+    pat = re.compile(r'(?<![\w.])' + re.escape(slot) + r'(?![\w.])')
+    n = 0
+    for b in f.blocks:
+        for i in b.insts:
+            t = i.text
+            if not pat.search(t):
+                continue
+            if re.match(re.escape(slot) + r' = alloca i32\b', t) or re.match(r'%[\w.]+ = load i32, i32\* ' + re.escape(slot) + r',', t):
+                continue
+            if re.match(r'store i32 %' + str(idx) + r', i32\* ' + re.escape(slot) + r',', t):
+                n += 1
+                continue
+            raise ExtractError("%s: parameter %d is modified / its address is used: %s" % (f.name, idx, t[:100]))
+    if n != 1:
+        raise ExtractError("%s: parameter %d spilled %d times" % (f.name, idx, n))
+
+
+def _assert_arg(f, b, i):
+    """Non-constant argument of a janet_sandbox_assert call: ('choice', [c1, c2..]) for select/phi of constants,
+    ('var', alloca) for a load of an i32 local; ExtractError otherwise."""
+    val = i.args[0][1] if i.args else ""
+    d = None
+    for x in b.insts:
+        if x is i:
+            break
+        if x.text.startswith(val + " = "):
+            d = x.text
+    if d is None:
+        raise ExtractError("janet_sandbox_assert with a non-constant argument in %s (no definition of %s in the block)" % (f.name, val))
+    m = re.match(r'%[\w.]+ = select i1 %[\w.]+, i32 (-?\d+), i32 (-?\d+)$', d)
+    if m:
+        return ("choice", [int(m.group(1)) & 0xFFFFFFFF, int(m.group(2)) & 0xFFFFFFFF])
+    m = re.match(r'%[\w.]+ = phi i32 (.*)$', d)
+    if m:
+        inc = re.findall(r'\[\s*(\S+),\s*%[\w.]+\s*\]', m.group(1))
+        if inc and all(re.match(r'^-?\d+$', v) for v in inc):
+            return ("choice", sorted(set(int(v) & 0xFFFFFFFF for v in inc)))
+    m = re.match(r'%[\w.]+ = load i32, i32\* (%[\w.]+),', d)
+    if m:
+        return ("var", m.group(1))
+    raise ExtractError("janet_sandbox_assert with a non-constant argument in %s: %s" % (f.name, d[:100]))
+
+
+def _mask_track(M, f):
+    """Assert-mask variable of one function: `x = C0; x |= C1; if (..) x |= C2; janet_sandbox_assert(x)`.
+    -> ({id(store inst): ('modeSet', c << SHIFT) | ('modeOr', c << SHIFT)}, {id(assert call inst)})"""
+    sites = []
+    for b in f.blocks:
+        for i in b.insts:
+            if i.kind == "call" and i.callee == "janet_sandbox_assert" and (len(i.const_args) != 1 or i.const_args[0] is None):
+                r = _assert_arg(f, b, i)
+                if r[0] == "var":
+                    sites.append((i, r[1]))
+    if not sites:
+        return {}, set()
+    allocas = set(v for _, v in sites)
+    if len(allocas) != 1:
+        raise ExtractError("%s: janet_sandbox_assert on more than one mask variable" % f.name)
+    var = allocas.pop()
+    ld = r'%[\w.]+ = load i32, i32\* ' + re.escape(var) + r','
+    pat = re.compile(r'(?<![\w.])' + re.escape(var) + r'(?![\w.])')
+    evs = {}
+    for b in f.blocks:
+        defs = {}
+        for i in b.insts:
+            t = i.text
+            if " = " in t:
+                defs[t.split(" = ")[0]] = t
+            if not pat.search(t):
+                continue
+            if re.match(re.escape(var) + r' = alloca i32\b', t) or re.match(ld, t):
+                continue
+            ms = re.match(r'store i32 (\S+), i32\* ' + re.escape(var) + r',', t)
+            if not ms:
+                raise ExtractError("janet_sandbox_assert with a non-constant argument in %s: mask variable %s is used in %s" % (f.name, var, t[:80]))
+            v = ms.group(1)
+            if re.match(r'^-?\d+$', v):
+                evs[id(i)] = ("modeSet", (int(v) & 0xFFFFFFFF) << SHIFT)
+                continue
+            dv = defs.get(v, "")
+            if re.match(ld, dv):
+                continue
+            mo = re.match(r'%[\w.]+ = or i32 (\S+), (\S+)$', dv)
+            if mo:
+                a, c2 = mo.groups()
+                if re.match(r'^-?\d+$', a):
+                    a, c2 = c2, a
+                if re.match(r'^-?\d+$', c2) and re.match(ld, defs.get(a, "")):
+                    evs[id(i)] = ("modeOr", (int(c2) & 0xFFFFFFFF) << SHIFT)
+                    continue
+            raise ExtractError("janet_sandbox_assert with a non-constant argument in %s: mask variable %s assigned a value that is not built from constants: %s" % (f.name, var, (dv or t)[:80]))
+    M.mask_tracked.append((f.name, var))
+    return evs, set(id(i) for i, _ in sites)
+
+
+def _events(M, fname, i, fn_ids, fdefs, blk=None, var_asserts=()):
     """Events of one IR instruction, in order."""
     evs = []
     sens = M.sens
@@ -551,9 +779,14 @@ def _events(M, fname, i, fn_ids, fdefs):
     elif i.kind == "call" and i.callee:
         c = i.callee
         if c == "janet_sandbox_assert":
-            if len(i.const_args) != 1 or i.const_args[0] is None:
-                raise ExtractError("janet_sandbox_assert with a non-constant argument in " + fname)
-            evs.append((("assert", i.const_args[0] & 0xFFFFFFFF), i.text))
+            if id(i) in var_asserts:
+                evs.append((("assertMd", SHIFT), i.text))
+            elif len(i.const_args) != 1 or i.const_args[0] is None:
+                r = _assert_arg(fdefs[fname], blk, i)          # raises ExtractError when it is not select/phi of constants
+                M.assert_choices.append((fname, r[1]))
+                evs.append((("choice", [("assert", c_) for c_ in r[1]]), i.text))
+            else:
+                evs.append((("assert", i.const_args[0] & 0xFFFFFFFF), i.text))
         elif c in sens:
             evs.append((("libc", fname, c), i.text))
         elif c.startswith("llvm.mem") and i.args and "@janet_vm to i8*" in i.args[0][0] and "getelementptr" not in i.args[0][0]:
@@ -561,9 +794,15 @@ def _events(M, fname, i, fn_ids, fdefs):
         elif c in M.spawners:
             for r in i.refs:
                 if r in fn_ids:
-                    evs.append((("call", fn_ids[r]), i.text))
+                    if r in M.param_modes:
+                        raise ExtractError("Cap.paramModes function %s is handed to a spawner" % r)
+                    evs.append((("call", fn_ids[r], 0), i.text))
         elif c in fn_ids:
-            evs.append((("call", fn_ids[c]), i.text))
+            m0 = 0
+            if c in M.param_modes:
+                ai = M.param_modes[c]
+                m0 = i.const_args[ai] if ai < len(i.const_args) and i.const_args[ai] is not None and i.const_args[ai] in (0, 1) else 2
+            evs.append((("call", fn_ids[c], m0), i.text))
         elif c in fdefs:
             if c in M.may_grow:
                 evs.append((("havoc", "call " + c), i.text))
@@ -607,10 +846,10 @@ def certify(M):
                 pure[fn] = False
                 changed = True
     K = [dict() for _ in nodes]       # node -> {mode: knowledge}   (one case per mode; joins of equal modes are met)
-    fpre = [None] * nf
+    fpre = [dict() for _ in range(nf)]               # per function: {initial value of the tracked variable (call `m0`; 0 for entry points): knowledge}
     post = [None] * nf
     for n in M.entry_fns:
-        fpre[M.fn_ids[n]] = frozenset()
+        fpre[M.fn_ids[n]][0] = frozenset()
     state = {"work": True}
 
     def add(n, mode, kn):
@@ -626,8 +865,8 @@ def certify(M):
         if rounds > 300:
             raise ExtractError("certificate analysis does not converge")
         for f in range(nf):
-            if fpre[f] is not None:
-                add(M.entries_of[f], 0, fpre[f])
+            for m0 in sorted(fpre[f]):
+                add(M.entries_of[f], m0, fpre[f][m0])
         for n, (fn, op, succ) in enumerate(nodes):
             for mode, k in list(K[n].items()):
                 om = mode
@@ -639,11 +878,15 @@ def certify(M):
                     out, om = k, op[1]
                 elif op[0] == "modeOr":
                     out, om = k, mode | op[1]
+                elif op[0] == "modeUpd":
+                    out, om = k, (mode & op[1]) | op[2]
+                elif op[0] == "assertMd":
+                    out = _minimise(list(k) + _bits(mode >> op[1]))
                 elif op[0] == "call":
                     g = op[1]
-                    np_ = _meet(fpre[g], k)
-                    if np_ != fpre[g]:
-                        fpre[g] = np_
+                    np_ = _meet(fpre[g].get(op[2]), k)
+                    if np_ != fpre[g].get(op[2]):
+                        fpre[g][op[2]] = np_
                         state["work"] = True
                     if post[g] is None:
                         continue
@@ -661,7 +904,6 @@ def certify(M):
     C = Model()
     # never-reached nodes: no case.  Never-called functions / functions that never return: "false" = the group 0
     C.K = [sorted((m, sorted(k)) for m, k in d.items()) for d in K]
-    C.fpre = [sorted(k) if k is not None else [0] for k in fpre]
     C.post = [sorted(k) if k is not None else [0] for k in post]
     C.pure = pure
     C.reached = [bool(d) for d in K]
@@ -680,6 +922,12 @@ def need(M, fn, name, md=0):
         return need_open(md)
     if name == "janet-file-flags":
         return ([32] if md & 13 else []) + ([64] if (md & 2) or (md & 4 and md & 8) else [])
+    if fn == "janet_get_addrinfo" and name == "getaddrinfo":
+        return need_addrinfo(md)
+    if (fn, name) in M.site_role:
+        return [M.site_role[(fn, name)]]
+    if name in M.by_role:
+        return list(M.by_role[name])
     return M.sens.get(name, [])
 
 
@@ -718,13 +966,15 @@ def check(M, C):
                 edges(op[1], lambda g: _imp(g, k))
             elif op[0] == "modeOr":
                 edges(m | op[1], lambda g: _imp(g, k))
+            elif op[0] == "modeUpd":
+                edges((m & op[1]) | op[2], lambda g: _imp(g, k))
+            elif op[0] == "assertMd":
+                edges(m, lambda g: (g & (m >> op[1])) != 0 or _imp(g, k))
             elif op[0] == "havoc":
                 edges(m, lambda g: False)
             elif op[0] == "call":
                 g_ = op[1]
-                if not all(_imp(x, k) for x in C.fpre[g_]):
-                    bad.append(dict(kind="call-pre", fn=name, node=n, callee=M.slice[g_]))
-                if not _cover(C.K[M.entries_of[g_]], 0, lambda x: _imp(x, C.fpre[g_])):
+                if not _cover(C.K[M.entries_of[g_]], op[2], lambda x: _imp(x, k)):
                     bad.append(dict(kind="call-entry", fn=name, node=n, callee=M.slice[g_]))
                 edges(m, lambda x: (C.pure[g_] and _imp(x, k)) or _imp(x, C.post[g_]))
             elif op[0] == "ret":
@@ -733,8 +983,8 @@ def check(M, C):
             if op[0] == "libc":
                 for r in need(M, op[1], op[2], m):
                     if not _imp(r, k):
-                        bad.append(dict(kind="uncovered", fn=name, node=n, call=op[2], need=r, known=list(k), mode=m,
-                                        reached=C.reached[n], src=M.node_src[n][2]))
+                        bad.append(dict(kind="uncovered", fn=name, node=n, call=op[2], need=r, known=list(k), mode=m & LO_KEEP,
+                                        asserted_mask=m >> SHIFT, reached=C.reached[n], src=M.node_src[n][2]))
     return bad
 
 
@@ -792,6 +1042,22 @@ def render(M, C, origin="current tree"):
     o.append("abbrev fnEntry : Array Nat := #" + _lnat_list(M.entries_of) + "\n")
     o.append("/-- functions whose address escapes: registered C functions, method tables, callbacks -/")
     o.append("abbrev entryFns : List Nat := " + _lnat_list([M.fn_ids[n] for n in M.entry_fns]) + "\n")
+    pid = {n: k for k, n in enumerate(M.mod.order)}
+    o.append("/-- every function DEFINED in the program, in IR order: program id ↦ C name -/")
+    o.append("abbrev progFns : List String := [" + ", ".join(_lstr(x) for x in M.mod.order) + "]\n")
+    o.append("/-- program id of each function of the slice (graph function index ↦ program id) -/")
+    o.append("abbrev sliceIds : List Nat := " + _lnat_list([pid[n] for n in M.slice]) + "\n")
+    o.append("/-- INDEPENDENT scan of the IR text (tools/gen/sandbox.py raw_address_scan): program ids of every defined function that is\n"
+             "    mentioned anywhere other than as the callee of a direct call or as the argument of a spawner: %d functions\n"
+             "    (%d mentions in global initialisers, %d as call arguments, %d in other instructions) -/" % (
+                 len(M.addr_taken), sum(1 for us in M.addr_uses_raw.values() for _, k in us if k == "global"),
+                 sum(1 for us in M.addr_uses_raw.values() for _, k in us if k.startswith("arg:")),
+                 sum(1 for us in M.addr_uses_raw.values() for _, k in us if k == "inst")))
+    o.append("abbrev addressTaken : List Nat := " + _lnat_list(sorted(pid[x] for x in M.addr_taken)) + "\n")
+    o.append("-- of which in the slice: " + ", ".join(x for x in M.addr_taken if x in M.fn_ids))
+    o.append("/-- (function, caller) program ids: function handed to a spawner (Cap.spawners) as a constant argument in `caller`: %s -/" % (
+        ", ".join("%s in %s" % h for h in M.handovers)))
+    o.append("abbrev handovers : List (Nat × Nat) := [" + ", ".join("(%d, %d)" % (pid[a_], pid[b_]) for a_, b_ in M.handovers) + "]\n")
 
     def op(t):
         if t[0] == "nop":
@@ -801,7 +1067,11 @@ def render(M, C, origin="current tree"):
         if t[0] == "libc":
             return "(.libc %s %s)" % (_lstr(t[1]), _lstr(t[2]))
         if t[0] == "call":
-            return "(.call %d)" % t[1]
+            return "(.call %d %d)" % (t[1], t[2])
+        if t[0] == "modeUpd":
+            return "(.modeUpd %d %d)" % (t[1], t[2])
+        if t[0] == "assertMd":
+            return "(.assertMd %d)" % t[1]
         if t[0] == "havoc":
             return ".havoc"
         if t[0] == "ret":
@@ -829,11 +1099,11 @@ def render(M, C, origin="current tree"):
     table("fnEntryAt", "Nat", [str(e) for e in M.entries_of], "0", "entry node of function n")
     o.append("abbrev graph : Graph := ⟨%d, nodeAt, fnEntryAt, entryFns⟩\n" % len(M.nodes))
     o.append("-- functions whose open(2) flags / fopen mode variable is tracked: %s; untracked (mode 3 = both capabilities required): %s" % (M.mode_tracked, M.mode_untracked))
+    o.append("-- assert-mask variables tracked (bits %d.. of the word): %s; asserts on a select/phi of constants: %s" % (SHIFT, M.mask_tracked, M.assert_choices))
     table("certK", "List Case", ["[" + ", ".join("(%d, %s)" % (m, _lnat_list(k)) for m, k in cs) + "]" for cs in C.K], "[]",
           "UNTRUSTED certificate (checked by `certOK`): cases known on entry to node n")
-    table("certPre", "List Nat", [_lnat_list(k) for k in C.fpre], "[]", "untrusted: precondition of function n")
     table("certPost", "List Nat", [_lnat_list(k) for k in C.post], "[]", "untrusted: postcondition of function n")
     table("certPure", "Bool", ["true" if p_ else "false" for p_ in C.pure], "false", "untrusted: function n never changes the flag word")
-    o.append("abbrev cert : Cert := ⟨certK, certPre, certPost, certPure⟩\n")
+    o.append("abbrev cert : Cert := ⟨certK, certPost, certPure⟩\n")
     o.append("end JanetModel.Gen.Sandbox")
     return "\n".join(o) + "\n"
